@@ -243,7 +243,10 @@ def gen_antlr(rnd):
                 parts.append('expr')
             elif r < 0.8:
                 parts.append(f"lbl={rnd.choice(toks)}")
-            elif r < 0.9:
+            elif r < 0.86:
+                # a negated set (~x: any character but x), bare, labelled and repeated
+                parts.append(rnd.choice(["~'+'", "lbl=~';'", "~('=' | ';')", "lbl=~'+' ID", "(~';')+"]))
+            elif r < 0.93:
                 parts.append(f"({rnd.choice(toks)} | {rnd.choice(toks)}){rnd.choice(['', '*', '+', '?'])}")
             else:
                 parts.append(f"lbl=({rnd.choice(toks)} | {rnd.choice(toks)})")
